@@ -141,7 +141,7 @@ AfterParaBlank(s) ==
 
 \* ---- Deb822::wrap_and_sort(None, None): a NEW document - comment lines collected in front of the next
 \* paragraph (as root-level tokens), exactly one blank line between paragraphs, remaining comments last;
-\* an unterminated last line is terminated
+\* an unterminated last line is terminated - unless it is a top-level comment line, which is copied as it is
 RECURSIVE WrapFrom(_,_,_,_)
 WrapFrom(es, i, pending, acc) ==
   IF i > Len(es) THEN acc \o pending
@@ -149,7 +149,10 @@ WrapFrom(es, i, pending, acc) ==
          WrapFrom(es, i + 1, <<>>, acc \o (IF \E j \in 1..Len(acc) : acc[j].t = "P" THEN <<TopL(BL)>> ELSE <<>>) \o pending \o <<es[i]>>)
   ELSE IF es[i].ls[1].k = "#" THEN WrapFrom(es, i + 1, Append(pending, TokL(es[i].ls[1])), acc)
   ELSE WrapFrom(es, i + 1, pending, acc)
-WrapI(s) == St(WrapFrom(s.els, 1, <<>>, <<>>), TRUE)
+LastTextEl(es) == LET S == { x \in 1..Len(es) : es[x].ls # <<>> } IN IF S = {} THEN 0 ELSE CHOOSE x \in S : \A y \in S : y <= x
+WrapI(s) == LET e == LastTextEl(s.els) IN
+            St(WrapFrom(s.els, 1, <<>>, <<>>),
+               IF e # 0 /\ s.els[e].t \in {"L", "T"} /\ s.els[e].ls[1].k = "#" THEN s.term ELSE TRUE)
 
 ItemsInv(s) ==
   LET tl == TextLines(s.els) IN
